@@ -470,8 +470,18 @@ def _c04_visibility(prop, tier, seed, out):
     return {'ConcTrace': st}
 
 
+def _c02_group_commit(prop, tier, seed, out):
+    """Concurrent half of C02: in multi-threaded runs with mixed sync / non-sync writers, no sync write rides in a group led
+    by a non-sync write, and a group led by a sync write is published only after a successful fsync of the log (ConcTrace)."""
+    from . import p_conc
+    st = {}
+    p_conc.conc_layer('C02', 'ConcTrace_C08.cfg', tier, seed, out, st)
+    st.pop('sample', None)
+    return {'ConcTrace': st}
+
+
 CHECKS = {
-    'C02': lambda tier, seed: run_disk('C02', tier, seed),
+    'C02': lambda tier, seed: run_disk('C02', tier, seed, extra=_c02_group_commit),
     'C03': lambda tier, seed: run_disk('C03', tier, seed),
     'C04': lambda tier, seed: run_disk('C04', tier, seed, extra=_c04_visibility),
     'C05': lambda tier, seed: run_disk('C05', tier, seed),
